@@ -25,6 +25,10 @@ type VCtx struct {
 }
 
 func (c *VCtx) setD(v uint64) { c.D, c.WD = v, true }
+
+// SetD and SetC are the exported forms (deviation models).
+func (c *VCtx) SetD(v uint64) { c.setD(v) }
+func (c *VCtx) SetC(b bool)   { c.setC(b) }
 func (c *VCtx) setC(b bool)   { c.C, c.WC = b, true }
 
 func vop(fmtName, name, p, page string, f func(c *VCtx)) *Entry {
